@@ -32,19 +32,28 @@
 //! more arrives: a protocol that is not paused never holds up a report. All other operations do not poll
 //! the local futures.
 //!
+//! Names: protocol `i` is installed as `/tl/<i>` with the fallback names `/tl/<i>/f1` .. `/tl/<i>/f<n>` given by
+//! `fb=<i>:<n>[,..]`; on the wire `<i>` is the main name, `<i>.f<k>` the k-th fallback name, `x` an unknown name.
+//! `local_open`/`burst` request a substream the way `TransportService` does (the protocol's fallback names and
+//! keep-alive setting go with the request; ids are `1000 + n` for the n-th accepted request). The remote answers
+//! outbound substreams by policy: `accept` (knows every main name), `fallback` (knows only the FIRST fallback name of
+//! every protocol), `refuse`, `stall` (takes the yamux stream and never writes: never acknowledged).
+//!
 //! Operations:
-//! `conn ka=<Y|N>.. [remote=accept|refuse|stall] [cap=<n>] [mcap=<n>] [sot=<ms>] [via=accept]` | `run` |
-//! `sleep <ms>` | `accept` | `fill <i|m>` | `half_close <i>` | `read_sub <i>` | `remote_send <k>` |
+//! `conn ka=<Y|N>.. [fb=<i>:<n>,..] [remote=accept|refuse|stall|fallback] [cap=<n>] [mcap=<n>] [sot=<ms>] [via=accept]` |
+//! `run` | `sleep <ms>` | `accept` | `fill <i|m>` | `half_close <i>` | `read_sub <i>` | `remote_send <k>` |
 //! `downgrade <i>` | `upgrade <i>` |
-//! `drop_handle <i>` | `local_open <i>` | `force_close <i>` | `remote_open <j|x> hdr|full` |
-//! `remote_continue <k> <j|x>` | `remote_reset <k>` | `remote_close` | `remote_goaway` |
+//! `drop_handle <i>` | `local_open <i>` | `burst <i> <n>` | `force_close <i>` | `remote_open <name> hdr|full` |
+//! `remote_continue <k> <name>` | `remote_reset <k>` | `remote_close` | `remote_goaway` |
 //! `remote_policy <p>` |
 //! `drop_sub <i>` | `pause <i|m>` | `resume <i|m>` | `drop_rx <i>` | `arrange_race <k>`.
 //!
 //! Observation after every operation:
 //! `<ret> loop=<run|ok|err> acc=<inbound streams accepted> strong=<y|n|-> p0=<msgs> .. m=<msgs>`
 //! where `<msgs>` are the messages the protocol / the manager received during this operation, in
-//! order (`E` established, `C` closed, `Oi`/`Oo` substream opened inbound/outbound, `X` open failure,
+//! order (`E` established, `C` closed, `Oi` / `Oo<id>` substream opened inbound/outbound — with `.f<k>` appended
+//! when the event names the protocol's k-th fallback name as the negotiated one, `!` when it does not name the
+//! main protocol of the channel it arrived in —, `X<id>` open failure for request `<id>`,
 //! `F` filler, `-` none, `x` receiver dropped) and `strong` tells whether the command channel still has a
 //! strong sender (`-` once the loop has returned, or while no protocol has taken its handle yet).
 //! For a `via=accept` connection `loop` is `parked` (accept not called), `accepting` (the future is
@@ -94,6 +103,9 @@ use std::{
 
 const DEADLINE: Duration = Duration::from_secs(10);
 const MAX_PROTOCOLS: usize = 4;
+const MAX_FALLBACKS: usize = 2;
+/// Largest `burst`.
+const MAX_BURST: usize = 600;
 /// `connection_open_timeout` of the transport of a `via=accept` connection.
 const ACCEPT_OPEN_TIMEOUT: Duration = Duration::from_secs(1);
 /// Connection id of the filler events put into the manager's channel by `fill m`.
@@ -106,6 +118,8 @@ struct Opts {
     mcap: usize,
     sot: Duration,
     via_accept: bool,
+    /// Number of fallback names per protocol (`fb=<i>:<n>,..`).
+    fb: [usize; MAX_PROTOCOLS],
 }
 
 impl Default for Opts {
@@ -115,6 +129,7 @@ impl Default for Opts {
             mcap: 64,
             sot: Duration::from_secs(3600),
             via_accept: false,
+            fb: [0; MAX_PROTOCOLS],
         }
     }
 }
@@ -188,11 +203,44 @@ fn proto_name(i: usize) -> ProtocolName {
     ProtocolName::from(format!("/tl/{i}"))
 }
 
+/// The `k`-th fallback name of protocol `i` (`k >= 1`).
+fn fb_name(i: usize, k: usize) -> ProtocolName {
+    ProtocolName::from(format!("/tl/{i}/f{k}"))
+}
+
+/// `x` | `<i>` | `<i>.f<k>` -> the name on the wire.
 fn wire_name(token: &str) -> Option<String> {
     match token {
         "x" => Some("/tl/x".to_string()),
-        t => t.parse::<usize>().ok().filter(|i| *i < MAX_PROTOCOLS).map(|i| format!("/tl/{i}")),
+        t => {
+            let (i, k) = match t.split_once(".f") {
+                Some((i, k)) => (i, Some(k.parse::<usize>().ok().filter(|k| (1..=MAX_FALLBACKS).contains(k))?)),
+                None => (t, None),
+            };
+            let i = i.parse::<usize>().ok().filter(|i| *i < MAX_PROTOCOLS)?;
+            Some(match k {
+                Some(k) => format!("/tl/{i}/f{k}"),
+                None => format!("/tl/{i}"),
+            })
+        }
     }
+}
+
+/// Is the wire name one of the names of an installed protocol?
+fn installed_name(token: &str, n: usize, fb: &[usize; MAX_PROTOCOLS]) -> bool {
+    let (i, k) = match token.split_once(".f") {
+        Some((i, k)) => (i, k.parse::<usize>().ok()),
+        None => (token, Some(0)),
+    };
+    match (i.parse::<usize>(), k) {
+        (Ok(i), Some(k)) => i < n && k <= fb[i],
+        _ => false,
+    }
+}
+
+/// Number of a substream id (the field is private to `types`).
+fn sid_number(id: &SubstreamId) -> String {
+    format!("{id:?}").chars().filter(|c| c.is_ascii_digit()).collect()
 }
 
 const MSS_HEADER: &[u8] = b"\x13/multistream/1.0.0\n";
@@ -209,6 +257,8 @@ enum Policy {
     Accept,
     Refuse,
     Stall,
+    /// The remote only knows the first fallback name of every protocol.
+    Fallback,
 }
 
 struct Proto {
@@ -216,11 +266,13 @@ struct Proto {
     /// For `fill`: somebody else's messages in the protocol's channel.
     tx: Sender<InnerTransportEvent>,
     ka: SubstreamKeepAlive,
+    /// Fallback names of the protocol.
+    fbs: Vec<ProtocolName>,
     handle: Option<ConnectionHandle>,
     subs: Vec<Substream>,
     paused: bool,
     /// Messages received during the current operation.
-    seen: Vec<&'static str>,
+    seen: Vec<String>,
 }
 
 type YStream = crate::yamux::Stream;
@@ -285,6 +337,7 @@ struct Conn {
     base: (i128, i128),
     next_sid: usize,
     stuck: bool,
+    fb: [usize; MAX_PROTOCOLS],
 }
 
 /// Loopback TCP connection with noise and yamux negotiated on both ends.
@@ -347,12 +400,13 @@ impl Conn {
         let mut contexts = HashMap::new();
         for (i, ka) in kinds.iter().enumerate() {
             let (tx, rx) = channel(opts.cap);
+            let fbs: Vec<ProtocolName> = (1..=opts.fb[i]).map(|k| fb_name(i, k)).collect();
             contexts.insert(
                 proto_name(i),
                 ProtocolContext {
                     tx: tx.clone(),
                     codec: ProtocolCodec::Identity(32),
-                    fallback_names: Vec::new(),
+                    fallback_names: fbs.clone(),
                     keep_alive: *ka,
                 },
             );
@@ -360,6 +414,7 @@ impl Conn {
                 rx: Some(rx),
                 tx,
                 ka: *ka,
+                fbs,
                 handle: None,
                 subs: Vec::new(),
                 paused: false,
@@ -458,6 +513,7 @@ impl Conn {
             base: (0, 0),
             next_sid: 0,
             stuck: false,
+            fb: opts.fb,
         };
         // both ends are idle after the handshake: remember the counter offsets
         if let Some((a, b)) = conn.in_flight_raw() {
@@ -566,6 +622,7 @@ impl Conn {
                 policy => {
                     let names: Vec<String> = match policy {
                         Policy::Accept => (0..MAX_PROTOCOLS).map(|i| format!("/tl/{i}")).collect(),
+                        Policy::Fallback => (0..MAX_PROTOCOLS).map(|i| format!("/tl/{i}/f1")).collect(),
                         _ => vec!["/tl/none".to_string()],
                     };
                     self.jobs.push(Job::new(false, async move {
@@ -639,7 +696,7 @@ impl Conn {
     /// anything was taken.
     fn drain(&mut self) -> bool {
         let mut taken = false;
-        for proto in self.protos.iter_mut() {
+        for (index, proto) in self.protos.iter_mut().enumerate() {
             if proto.paused {
                 continue;
             }
@@ -655,26 +712,41 @@ impl Conn {
                             self.probe = Some(probe);
                         }
                         proto.handle = Some(sender);
-                        proto.seen.push("E");
+                        proto.seen.push("E".into());
                     }
-                    Ok(InnerTransportEvent::ConnectionClosed { .. }) => proto.seen.push("C"),
+                    Ok(InnerTransportEvent::ConnectionClosed { .. }) => proto.seen.push("C".into()),
                     Ok(InnerTransportEvent::SubstreamOpened {
                         substream,
                         direction,
                         opening_permit,
+                        protocol,
+                        fallback,
                         ..
                     }) => {
                         // what `TransportService` does: the opening permit is not needed any more
                         drop(opening_permit);
                         proto.subs.push(substream);
-                        proto.seen.push(match direction {
-                            Direction::Inbound => "Oi",
-                            Direction::Outbound(_) => "Oo",
-                        });
+                        let mut text = match direction {
+                            Direction::Inbound => "Oi".to_string(),
+                            Direction::Outbound(id) => format!("Oo{}", sid_number(&id)),
+                        };
+                        // the name it was negotiated under: `.f<k>` = the k-th fallback name of THIS protocol
+                        if let Some(name) = fallback {
+                            match proto.fbs.iter().position(|f| *f == name) {
+                                Some(k) => text.push_str(&format!(".f{}", k + 1)),
+                                None => text.push_str(".f?"),
+                            }
+                        }
+                        // reported under the main name of the protocol that owns this channel?
+                        if protocol != proto_name(index) {
+                            text.push('!');
+                        }
+                        proto.seen.push(text);
                     }
-                    Ok(InnerTransportEvent::SubstreamOpenFailure { .. }) => proto.seen.push("X"),
-                    Ok(InnerTransportEvent::DialFailure { .. }) => proto.seen.push("F"),
-                    Ok(_) => proto.seen.push("?"),
+                    Ok(InnerTransportEvent::SubstreamOpenFailure { substream, .. }) =>
+                        proto.seen.push(format!("X{}", sid_number(&substream))),
+                    Ok(InnerTransportEvent::DialFailure { .. }) => proto.seen.push("F".into()),
+                    Ok(_) => proto.seen.push("?".into()),
                     Err(TryRecvError::Empty) | Err(TryRecvError::Disconnected) => break,
                 }
             }
@@ -745,6 +817,35 @@ impl Conn {
             out.push_str(" stuck");
         }
         out
+    }
+
+    /// `try_get_permit` + `ConnectionHandle::open_substream` by protocol `i`, the way `TransportService` does it: the
+    /// protocol's own keep-alive setting and fallback names go with the request. Substream ids are `1000 + n` for the
+    /// n-th ACCEPTED request.
+    fn local_open(&mut self, i: usize) -> &'static str {
+        let sid = self.next_sid;
+        let ka = self.protos[i].ka;
+        let fallbacks = self.protos[i].fbs.clone();
+        match self.protos[i].handle.as_mut() {
+            None => "none",
+            Some(handle) => match handle.try_get_permit() {
+                None => "closed",
+                Some(permit) => match handle.open_substream(
+                    proto_name(i),
+                    fallbacks,
+                    SubstreamId::from(1000 + sid),
+                    permit,
+                    ka,
+                ) {
+                    Ok(()) => {
+                        self.next_sid += 1;
+                        "ok"
+                    }
+                    Err(crate::error::SubstreamError::ChannelClogged) => "clogged",
+                    Err(_) => "closed",
+                },
+            },
+        }
     }
 
     /// Remote script: open a substream and write `bytes`.
@@ -873,6 +974,14 @@ impl LoopBox {
                         _ => return "bad-op".into(),
                     },
                     Some(("via", "accept")) => opts.via_accept = true,
+                    Some(("fb", v)) =>
+                        for part in v.split(',') {
+                            match part.split_once(':').map(|(i, k)| (i.parse::<usize>(), k.parse::<usize>())) {
+                                Some((Ok(i), Ok(k))) if i < MAX_PROTOCOLS && (1..=MAX_FALLBACKS).contains(&k) =>
+                                    opts.fb[i] = k,
+                                _ => return "bad-op".into(),
+                            }
+                        },
                     Some(("ka", v)) =>
                         for ch in v.chars() {
                             kinds.push(match ch {
@@ -884,10 +993,14 @@ impl LoopBox {
                     Some(("remote", "accept")) => policy = Policy::Accept,
                     Some(("remote", "refuse")) => policy = Policy::Refuse,
                     Some(("remote", "stall")) => policy = Policy::Stall,
+                    Some(("remote", "fallback")) => policy = Policy::Fallback,
                     _ => return "bad-op".into(),
                 }
             }
             if kinds.is_empty() || kinds.len() > MAX_PROTOCOLS {
+                return "bad-op".into();
+            }
+            if (kinds.len()..MAX_PROTOCOLS).any(|i| opts.fb[i] != 0) {
                 return "bad-op".into();
             }
             self.conns += 1;
@@ -1046,31 +1159,25 @@ impl LoopBox {
                 None => return "bad-op".into(),
             },
             ["local_open", i] => match index(i).filter(|i| *i < n) {
-                Some(i) => {
-                    let sid = conn.next_sid;
-                    let ka = conn.protos[i].ka;
-                    match conn.protos[i].handle.as_mut() {
-                        None => "none".into(),
-                        Some(handle) => match handle.try_get_permit() {
-                            None => "closed".into(),
-                            Some(permit) => {
-                                conn.next_sid += 1;
-                                match handle.open_substream(
-                                    proto_name(i),
-                                    Vec::new(),
-                                    SubstreamId::from(1000 + sid),
-                                    permit,
-                                    ka,
-                                ) {
-                                    Ok(()) => "ok".into(),
-                                    Err(crate::error::SubstreamError::ChannelClogged) => "clogged".into(),
-                                    Err(_) => "closed".into(),
-                                }
-                            }
-                        },
-                    }
-                }
+                Some(i) => conn.local_open(i).into(),
                 None => return "bad-op".into(),
+            },
+            // `k` open requests in a row (the local futures are not polled in between); stops at the first one
+            // that is not accepted
+            ["burst", i, k] => match (index(i).filter(|i| *i < n), index(k).filter(|k| (1..=MAX_BURST).contains(k))) {
+                (Some(i), Some(k)) => {
+                    let mut accepted = 0usize;
+                    let mut last = "ok";
+                    while accepted < k {
+                        last = conn.local_open(i);
+                        if last != "ok" {
+                            break;
+                        }
+                        accepted += 1;
+                    }
+                    if last == "ok" { format!("ok{accepted}") } else { format!("ok{accepted},{last}") }
+                }
+                _ => return "bad-op".into(),
             },
             ["force_close", i] => match index(i).filter(|i| *i < n) {
                 Some(i) => match conn.protos[i].handle.as_mut() {
@@ -1084,7 +1191,7 @@ impl LoopBox {
                 None => return "bad-op".into(),
             },
             ["remote_open", name, how] => {
-                let installed = name.parse::<usize>().map_or(false, |i| i < n) && *how == "full";
+                let installed = installed_name(name, n, &conn.fb) && *how == "full";
                 let Some(name) = wire_name(name) else { return "bad-op".into() };
                 let mut bytes = MSS_HEADER.to_vec();
                 match *how {
@@ -1104,7 +1211,7 @@ impl LoopBox {
                 }
             }
             ["remote_continue", k, name] => {
-                let installed = name.parse::<usize>().map_or(false, |i| i < n);
+                let installed = installed_name(name, n, &conn.fb);
                 let (Some(k), Some(name)) = (index(k), wire_name(name)) else {
                     return "bad-op".into();
                 };
@@ -1170,6 +1277,7 @@ impl LoopBox {
                     "accept" => Policy::Accept,
                     "refuse" => Policy::Refuse,
                     "stall" => Policy::Stall,
+                    "fallback" => Policy::Fallback,
                     _ => return "bad-op".into(),
                 };
                 "ok".into()
